@@ -401,4 +401,39 @@ theorem c08_dup_id_rejected (st : Store) (hi : Inv st) (c : Nat) (seen seen' : S
 example : (step (run Store.init [.app 0 0 0 [⟨5, [1], [2], [3], 4⟩], .reopen]) (.app 0 1 0 [⟨6, [1], [2], [3], 4⟩])).2 = .err .conflict := by
   decide +kernel
 
+/-! ### last round: the filter is transparent over a whole batch -/
+
+/-- **c08_batch_filter_transparent**: over a WHOLE batch (any number of records, any mode), validating with an
+    arbitrary well-formed filter that covers the durable keys whenever it claims to be loaded gives exactly the
+    rows / the error that validation with an unconditional point read gives; the filter left behind is still
+    well formed and still covering (so the next batch is transparent too). -/
+theorem c08_batch_filter_transparent (H : Hash) (st : Store) (c mode : Nat) (recs : List Rec) (seq : Nat) (f : Filter)
+    (n : Cnt) (seen : Seen) (acc : List Row) (w : f.WF) (hc : f.loaded = true → Covers H (st.chan c) f) :
+    (walkRowsF H st c mode seq recs f n seen acc).2.2 = walkRows st c mode seq recs seen acc ∧
+    (walkRowsF H st c mode seq recs f n seen acc).1.WF ∧
+    ((walkRowsF H st c mode seq recs f n seen acc).1.loaded = true →
+      Covers H (st.chan c) (walkRowsF H st c mode seq recs f n seen acc).1) := by
+  induction recs generalizing seq f n seen acc with
+  | nil => exact ⟨rfl, w, hc⟩
+  | cons r rest ih =>
+    unfold walkRowsF walkRows
+    dsimp only
+    have ht := c08_filter_transparent H st c mode f n seen (mkRow seq r) w hc
+    have hk := c08_validate_keeps_cover H st c mode f n seen (mkRow seq r) w hc
+    dsimp only at hk
+    rcases hv : validateRowF H st c mode f n seen (mkRow seq r) with ⟨f', n', res⟩
+    rw [hv] at ht hk
+    dsimp only at ht hk
+    rw [← ht]
+    cases res with
+    | error e => exact ⟨rfl, hk.1, hk.2⟩
+    | ok seen' => exact ih (seq + 1) f' n' seen' (mkRow seq r :: acc) hk.1 hk.2
+
+-- non-vacuity: a saturated loaded filter over a two-record batch
+example : (walkRowsF (fun _ _ => (5, 7)) Store.init 0 0 1 [⟨9, [1], [2], [3], 4⟩, ⟨10, [1], [3], [3], 4⟩]
+            { prim := some (2 ^ 4096 - 1), adds := 384, loaded := true } {} {} []).2.2 =
+          walkRows Store.init 0 0 1 [⟨9, [1], [2], [3], 4⟩, ⟨10, [1], [3], [3], 4⟩] {} [] :=
+  (c08_batch_filter_transparent _ _ _ _ _ _ _ _ _ _ (by intro h; simp at h)
+    (by intro _ p hp; simp [Store.init, Store.chan, numChan] at hp)).1
+
 end WK.C08
